@@ -1,18 +1,18 @@
-\* weights <3,1,1,1> (n=6,f=1,Q=5,S=3); faulty validator 2 leads view 1
 CONSTANTS
   Validators = {1,2,3,4}
   Weight <- W3111
-  Correct = {1,3,4}
-  Faulty = {2}
+  Correct = {1,2,4}
+  Faulty = {3}
   Payloads = {"p","q"}
   BadPayloads = {}
   Weaken = "none"
   MaxView = 2
   ViewCap = 2
   HonestPayloads <- Alternating
+  EnableLeaderNV = FALSE
   MaxCrash = 0
   MaxBlocks = 2
-INIT Init
+INIT InitView1
 NEXT NextMC
 VIEW MCView
 CONSTRAINT Bound
